@@ -178,17 +178,48 @@ def hyp_settings(n, shrink=False):
     )
 
 
+def _in_code_under_test(exc):
+    """Was the exception raised inside genjax (the code under test), as opposed to the harness / numpy / Hypothesis?"""
+    tb = exc.__traceback__
+    hit = False
+    while tb is not None:
+        if "/genjax/" in tb.tb_frame.f_code.co_filename:
+            hit = True
+        tb = tb.tb_next
+    return hit
+
+
 def drive(ctx, strategy, n, fn, label="main"):
-    """Run fn(case) on n Hypothesis-generated cases (failures are *recorded* by fn via ctx)."""
+    """Run fn(case) on n Hypothesis-generated cases (failures are *recorded* by fn via ctx).
+
+    An exception that escapes fn is either raised by the code under test in a place the property module did not wrap
+    (-> a failure bucket, so that it is reported as a violation with the case as replay) or a defect of the harness
+    itself (generator / oracle bug -> the case is skipped and counted; the run is inconclusive only if that happens often)."""
     from hypothesis import given, seed
 
     @seed(ctx.hseed(label))
     @hyp_settings(n)
     @given(strategy)
     def _t(case):
-        fn(case)
+        try:
+            fn(case)
+        except (KeyboardInterrupt, SystemExit):
+            raise
+        except BaseException as e:  # noqa: BLE001
+            if _in_code_under_test(e):
+                ctx.fail(f"raises_unwrapped:{ImplError(e).sig()}", f"{type(e).__name__}: {str(e)[:400]}", case)
+            else:
+                ctx.count("harness_case_errors")
+                ctx.notes.append(f"[{label}] harness error, case skipped: {type(e).__name__}: {str(e)[:300]}")
 
-    _t()
+    try:
+        _t()
+    except (KeyboardInterrupt, SystemExit):
+        raise
+    except BaseException as e:  # noqa: BLE001  (an error while *generating* a case)
+        ctx.count("harness_case_errors")
+        ctx.count("harness_generation_aborted")
+        ctx.notes.append(f"[{label}] generation aborted: {type(e).__name__}: {str(e)[:300]}")
 
 
 def shrink_bucket(ctx, strategy, n, classify, bucket, label="main", budget=150):
@@ -546,6 +577,12 @@ def _merge_and_report(prop, tier, seed, results, wall, plan):
     if distinct < 2:
         print(f"HARNESS-ERROR property={prop}: fewer than 2 non-trivial cases")
         return 2
+    herr = counters.get("harness_case_errors", 0)
+    if herr:
+        print(f"COVERAGE-NOTE property={prop}: {herr} generated case(s) skipped because of errors in the harness itself (see notes in the evidence file)")
+        if herr > 0.2 * max(evaluations, 1) or counters.get("harness_generation_aborted", 0) >= len(results):
+            print(f"HARNESS-ERROR property={prop}: too many harness errors; inconclusive")
+            return 2
     return 0
 
 
